@@ -463,6 +463,38 @@ fn validate_clang(scratch: &Scratch, tag: &str, header: &std::path::Path, vo: &V
     }
 }
 
+/// every typedef the header declares: `sizeof` / `_Alignof` as clang computes them vs `size_of` /
+/// `align_of` of the alias bindgen emits (the property speaks about typedef and array types too)
+#[allow(clippy::too_many_arguments)]
+fn validate_typedefs(scratch: &Scratch, tag: &str, header: &std::path::Path, prog: &Program, vo: &VariantOut, removed: &BTreeSet<String>, skip: &BTreeSet<String>, text: &str, stats: &mut Stats, issues: &mut Vec<Issue>) {
+    let mut names = vec![];
+    for d in &prog.decls {
+        let Decl::Typedef(n, _) = d else { continue };
+        let Some(pos) = vo.inv.other_kinds.iter().position(|(k, nm)| k == "type" && nm == n) else { continue };
+        let txt = &vo.inv.other_items[pos];
+        // aliases of records whose own layout is already reported / rejected are not judged again
+        if txt.split(|c: char| !c.is_alphanumeric() && c != '_').any(|w| skip.contains(w) || removed.contains(w)) { continue; }
+        names.push(n.clone());
+    }
+    if names.is_empty() { return; }
+    let exprs: Vec<String> = names.iter().flat_map(|n| [format!("sizeof({n})"), format!("_Alignof({n})")]).collect();
+    let cvals = match probe::clang_table(scratch, &format!("{tag}_td"), header, None, false, &exprs) { Ok(v) => v, Err(_) => return };
+    let (src, _) = vo.inv.types_source(removed);
+    let prefix = if vo.inv.other_items.iter().any(|i| i == "pub mod root {") { "b::root::" } else { "b::" };
+    let queries: Vec<RQuery> = names.iter().flat_map(|n| [RQuery::Size(n.clone()), RQuery::Align(n.clone())]).collect();
+    let rvals = match probe::rustc_probe(scratch, &format!("{tag}_td"), &src, prefix, &queries) { Ok(v) => v, Err(_) => return };
+    stats.clang_values += cvals.len() as u64;
+    stats.rustc_values += rvals.len() as u64;
+    *stats.branches.entry("typedefs_compared".into()).or_default() += names.len() as u64;
+    for (i, n) in names.iter().enumerate() {
+        if cvals.get(2 * i) != rvals.get(2 * i) || cvals.get(2 * i + 1) != rvals.get(2 * i + 1) {
+            issues.push(Issue { class: "oracle".into(), variant: "base".into(), comp: n.clone(),
+                detail: format!("typedef {n}: C sizeof/_Alignof = {:?}/{:?}, Rust size_of/align_of of the emitted alias = {:?}/{:?}", cvals.get(2 * i), cvals.get(2 * i + 1), rvals.get(2 * i), rvals.get(2 * i + 1)),
+                known: None, header: text.into() });
+        }
+    }
+}
+
 fn leaf_value(k: usize, l: &cgen::Leaf) -> (String, String) {
     // (C expression, Rust expression of the value as the field's type via `as`)
     match l.class {
@@ -584,6 +616,7 @@ fn run_header(scratch: &Scratch, tag: &str, text: &str, prog: Option<&Program>, 
         validate_rustc(scratch, tag, &base, &removed, text, "base", stats, issues);
         validate_asserts(scratch, tag, &base, &removed, text, &bad_closure, &bad_visible, stats, issues);
         validate_clang(scratch, tag, &scratch.path(&header_name), &base, &infos, text, stats, issues);
+        if let Some(p) = prog { validate_typedefs(scratch, tag, &scratch.path(&header_name), p, &base, &removed, &bad_closure, text, stats, issues); }
     }
     if do_roundtrip {
         if let Some(p) = prog {
@@ -696,7 +729,7 @@ fn main() {
         let mut cfg = GenCfg { n_decls: per_batch, ..Default::default() };
         // strata: plain only / no bit-fields / everything
         match b % 4 {
-            0 => { cfg.bitfields = false; cfg.packed = false; cfg.aligned = false; cfg.pragma_pack = false; cfg.int128 = false; cfg.long_double = false; }
+            0 => { cfg.bitfields = false; cfg.packed = false; cfg.aligned = false; cfg.pragma_pack = false; cfg.int128 = false; cfg.long_double = false; cfg.float128 = false; }
             1 => { cfg.bitfields = false; }
             _ => {}
         }
